@@ -247,3 +247,24 @@ var builtinHtmlJsonld = []string{
 	`<html><head><script type="application/ld+json">{"@context":{"n":"http://e/n"},"@id":"http://e/a","n":"x"}</script><script type="application/ld+json">[{"@id":"http://e/b","http://e/p":{"@value":"v","@language":"en"}}]</script></head><body><script type="application/ld+json"></script><script type="text/javascript">var x = 1;</script><script type="application/ld+json">{"@id": </script></body></html>`,
 	`<div vocab="http://schema.org/" typeof="Person" resource="#me"><span property="name">N</span><div itemscope itemtype="http://schema.org/Person"><span itemprop="name">M</span></div><script type="application/ld+json">{"@context":"http://schema.org/","@type":"Person","name":"J"}</script></div>`,
 }
+
+// loadCorpusLoaderDocsOnly fills loaderDocs (JSON-LD documents served by the test document loader)
+// without building the seed lists: what a child process needs.
+func loadCorpusLoaderDocsOnly() (int, error) {
+	loaderDocs = map[string][]byte{}
+	root := repoRoot()
+	for _, a := range []string{
+		"encoding/jsonld/testsuites/w3c-github-json-ld-api-toRdf/testdata.tar.gz",
+		"encoding/jsonld/internal/jsonldinternal/testsuites/w3c-github-json-ld-api-expand/testdata.tar.gz",
+	} {
+		err := readTarGz(filepath.Join(root, a), func(name string, b []byte) {
+			if ext := strings.ToLower(filepath.Ext(name)); ext == ".jsonld" || ext == ".json" {
+				loaderDocs[jsonldPrefix+name] = b
+			}
+		})
+		if err != nil {
+			return 0, err
+		}
+	}
+	return len(loaderDocs), nil
+}
